@@ -133,7 +133,7 @@ class LogRepFloat:
         if isinstance(other, LogRepFloat):
             if self.log_val >= other.log_val:
                 return LogRepFloat(log_val=log_diff_exp(self.log_val, other.log_val))
-            return self.val - other.val
+            return -(other - self).val
         return self.val - other
 
     def __rsub__(self, other: ScalarLike) -> ScalarLike:
